@@ -7,26 +7,13 @@
   harness c17        renders each case, runs the real osmgeojson.Convert under every option set (3 conversions each:
                      same input twice, an equal fresh input once), records abstract features + digests
   GeoJsonJudge (TLC) evaluates the J_* operators on the recorded features (the only oracle); a difference between
-                     the real features and the Model's Conv(ds, O) that no Judge objects to is a DIVERGENCE, not a verdict
+                     the real features and the Model's Conv(ds, O) is reported as DIVERGENCE, which is not a verdict
 """
 import json, os, threading, time
 import vlib
 
 MOD, JUDGE = "GeoJson", "GeoJsonJudge"
 CONVERSIONS_PER_OPTION_SET = 3
-
-# Ready-to-paste known_findings.json entry (notes/C17.md).  Until the coordinator has added an entry for this predicate
-# to /verif/known_findings.json (as "known", or as "fixed" once fixes/C17-shared-outer.diff is committed) the check uses
-# this copy, so that the genuine defect is reported as KNOWN-FINDING and every other failure still is a VIOLATION.
-LOCAL_KNOWN = {"property": "C17", "kf": "KF_SharedOldStyleOuter", "status": "known", "commit": "pinned",
-               "what": "two multipolygon/boundary relations without tags of their own share one outer way: each is "
-                       "rendered under the way's identity, so the way gets two features (osmgeojson/build_polygon.go:119-124)"}
-
-
-def register_known(ctx):
-    if not any(k.get("kf") == LOCAL_KNOWN["kf"] for k in ctx.known):
-        ctx.known.append(dict(LOCAL_KNOWN))
-
 
 _BIN = {}
 
@@ -51,8 +38,8 @@ def make_judge(ctx, count=True):
         for i, why, kf in bad:
             if why.get("diverges") and count:
                 ctx.divergences += 1
-                vlib.log("DIVERGENCE property=C17 record=%d option-sets=%s: real features differ from both variants of the "
-                         "Model (ConvV pinned / fixed); not a verdict" % (i, json.dumps(why["diverges"])[:200]))
+                vlib.log("DIVERGENCE property=C17 record=%d option-sets=%s: real features differ from the Model's Conv(ds, O); "
+                         "not a verdict" % (i, json.dumps(why["diverges"])[:200]))
                 if len(ctx.extra.setdefault("divergence_samples", [])) < 3:
                     ctx.extra["divergence_samples"].append({"case": rs[i]["case"], "option_sets": why["diverges"]})
             if why.get("fails"):
@@ -91,7 +78,6 @@ def account(ctx, module, cfg, r):
 
 
 def run(ctx):
-    register_known(ctx)
     tier = "quick" if ctx.quick() else "thorough"
     build = Bg(binary)
     # the copy of the polygon-features table in GeoJson.tla == PolygonRules.tla (own scratch: runs next to the generation)
@@ -106,8 +92,13 @@ def run(ctx):
     # design level on exactly these cases: Model |= Judges (own scratch: runs next to harness + judge).
     # Bound of the design-level run: all family cases + the first mc_sample cases of the random sample.
     mc_sample = 100000 if ctx.quick() else 12000
+    # The step machine carries the whole data set in every state: the real-size routes of family F7 are model-checked
+    # up to 13 sections (26 ways); the larger ones are only replayed into the real code and compared with the
+    # functional form of the Model by the Judge module.
     mc_cases, ns = [], 0
     for c in cases:
+        if len(c["ways"]) > 26:
+            continue
         if c["fam"] == "S":
             ns += 1
             if ns > mc_sample:
@@ -198,7 +189,6 @@ def run(ctx):
 
 
 def replay(ctx, rp):
-    register_known(ctx)
     seed = rp.get("seed", ctx.seed)
     recs = execute(ctx, [rp["case"]], seed=seed)
     bad = make_judge(ctx)(recs)
